@@ -2,6 +2,8 @@
 
 package message
 
+import eap_message "github.com/free5gc/ike/eap"
+
 // C03 / C05 / C20 for the loop-free payloads: value -> wire -> value, the strict RFC
 // 7296 layout of the wire image, and ownership of the decoded fields.
 
@@ -122,4 +124,21 @@ func lemma_C03_Header(ispi, rspi uint64, next, major, minor, exch, flags uint8, 
 	verifAssert(g.InitiatorSPI == ispi && g.ResponderSPI == rspi && g.NextPayload == next && g.MajorVersion == major &&
 		g.MinorVersion == minor && g.ExchangeType == exch && g.Flags == flags && g.MessageID == mid, "C03/Header/fields")
 	verifAssert(verifBytesEq(g.PayloadBytes, payload), "C03/Header/payload-bytes")
+}
+
+// ---- EAP payload (RFC 7296 3.16): the payload body is the EAP packet (framing and
+// method data are C14's lemmas in package eap; here: the wrapper adds and loses nothing)
+func lemma_C03_EAPPayload(code, id uint8, ident []byte) {
+	verifAssume(len(ident) >= 1 && len(ident) <= 60000)
+	x := NewPayloadEap()
+	x.Code = eap_message.EapCode(code)
+	x.Identifier = id
+	x.EapTypeData = &eap_message.EapIdentity{IdentityData: ident}
+	b, err := x.Marshal()
+	verifAssert(err == nil && len(b) == 5+len(ident) && b[0] == code && b[1] == id && int(b[2])<<8|int(b[3]) == len(b) && b[4] == 1 && verifBytesEq(b[5:], ident), "C05/EAP/body-is-the-eap-packet")
+	y := NewPayloadEap()
+	verifAssert(y.Unmarshal(b) == nil && uint8(y.Code) == code && y.Identifier == id, "C03/EAP/code-and-identifier")
+	z, ok := y.EapTypeData.(*eap_message.EapIdentity)
+	verifAssert(ok && verifBytesEq(z.IdentityData, ident), "C03/EAP/method-data")
+	verifAssert(verifDisjoint(z.IdentityData, b), "C20/EAP/owns-data")
 }
